@@ -1129,7 +1129,14 @@ def arr_attr(it, a, attr):
     if attr == 'copy':
         return B(lambda *x, **k: arr_method_copy(it, a))
     if attr == 'astype':
-        return B(lambda dt, **k: astype(it.ctx, a, S.kind_from_dtype(dt)))
+        def _astype(dt, **k):
+            if isinstance(dt, I().TypeTag) and dt.name == 'np.float32':
+                # rounding to single precision: an uninterpreted function of the value (f32(0) = 0)
+                f32 = V.Ghost.fn('f32')
+                V._side(f32(z3.RealVal(0)) == 0)
+                return elementwise(it.ctx, lambda x: f32(V.zreal(V.real_part(x))), a, kind='real')
+            return astype(it.ctx, a, S.kind_from_dtype(dt))
+        return B(_astype)
     if attr == 'flatten':
         return B(lambda *x: arr_flatten(it, a, True))
     if attr == 'ravel':
@@ -1277,6 +1284,9 @@ def ns_attr(it, ns, name):
         return T.TypeTag('typing.' + name)
     if n == 'inspect':
         raise Unsupported('inspect.' + name)
+    if n == 'pathlib':
+        if name == 'Path':
+            return T.Builtin('Path', lambda p: Obj(None, {'path': p}, tag='path'))
     if n == 'base64':
         if name == 'b64encode':
             return T.Builtin('b64encode', lambda x: Obj(None, {'of': x}, tag='b64'))
@@ -1373,3 +1383,60 @@ def sp_softmax(it, z, axis=None):
     tot = np_sum(it, e)
     it.ctx.assume(V.cmp('>', tot, 0)) if is_sym(tot) else None
     return elementwise(it.ctx, lambda v: V.div(v, tot), e, kind='real')
+
+
+# ------------------------------------------------------------------------------------------------ misc library models used by io code
+@np_fn('log10')
+def np_log10(it, x):
+    x = conc(x)
+    if isinstance(x, int) and x > 0:
+        # exact for the only use in /repo: int(np.ceil(np.log10(n))) with a concrete positive integer n
+        k, p = 0, 1
+        while p < x:
+            p *= 10
+            k += 1
+        return k if p == x else Fraction(2 * k - 1, 2)      # strictly between k-1 and k
+    raise Unsupported('log10 of symbolic value')
+
+
+class NdIter:
+    pass
+
+
+@np_fn('nditer')
+def np_nditer(it, a, flags=(), op_flags=None, **k):
+    a = a if is_arr(a) else to_carr(a)
+    if not isinstance(a, CArr):
+        raise Unsupported('nditer over a symbolic-shape array')
+    idxs = list(np.ndindex(*a.shape))
+    return Obj(None, {'arr': a, 'idxs': idxs, 'pos': 0, 'flags': list(flags), 'op_flags': op_flags}, tag='nditer')
+
+
+def _nditer_attr(it, o, attr):
+    T = I()
+    f = o.fields
+    if attr == 'finished':
+        return f['pos'] >= len(f['idxs'])
+    if attr == 'iternext':
+        def nxt():
+            f['pos'] += 1
+            return f['pos'] < len(f['idxs'])
+        return T.Builtin('iternext', nxt)
+    if attr == 'multi_index':
+        return tuple(f['idxs'][f['pos']])
+    if attr == 'index':
+        return f['pos']
+    if attr == 'value':
+        return f['arr'].data[f['idxs'][f['pos']]]
+    return NotImplemented
+
+
+S.OBJ_ATTR['nditer'] = _nditer_attr
+S.OBJ_GETITEM['nditer'] = lambda it, o, idx: o.fields['arr'].data[o.fields['idxs'][o.fields['pos']]]
+
+
+def _nditer_set(it, o, idx, v):
+    o.fields['arr'].data[o.fields['idxs'][o.fields['pos']]] = v
+
+
+S.OBJ_SETITEM['nditer'] = _nditer_set
